@@ -128,6 +128,7 @@ func init() {
 		f2, _ := size.DefaultFormatter(nil, n, size.FormatHTML)
 		e["f2"] = S(f2)
 		e["bs"] = S(n.BytesString())
+		e["bjn"] = S(string(n.BytesJSONNumber()))
 		sv, su := n.Shorten()
 		e["sv"], e["su"] = dig(sv), su
 		var a size.Size = 987654321
